@@ -225,8 +225,10 @@ func (d *Driver) report() int {
 	for _, np := range d.notProved {
 		fmt.Printf("NOTE not proved (outside subset): %s\n", np)
 	}
-	if d.WriteInv {
+	if d.WriteInv && d.OnlyFunc == "" && d.OnlyVariant == "" && len(failed) == 0 {
 		d.writeInventory(results)
+	} else if d.WriteInv {
+		fmt.Println("NOTE inventory not written (partial run or undischarged obligations)")
 	}
 	if len(results) == 0 {
 		fmt.Printf("ERROR no obligations generated for property %s\n", prop)
